@@ -85,6 +85,10 @@ def cfgs_alloc(tier, inc):
            (["X86"], "c++11"), (["POPCNT", "LZCNT"], "c++14")]
     if tier != "quick":
         pts += [(["X86"], "c++17"), (["BMI2"], "c++20"), (["AVX2"], "c++14"), (list(C.EVERYTHING), "c++20")]
+    # release builds (-DNDEBUG, -O2): anything the allocator does inside an assert() disappears
+    nd = ("-DNDEBUG",)
+    out += [C.Config([], std="c++11", opt="-O2", extra=nd), C.Config([], cxx="clang++", std="c++14", opt="-O2", extra=nd), C.Config(["SSE2"], std="c++17", opt="-O2", extra=nd),
+            C.Config([], std="c++20", opt="-O2", extra=nd)]
     for macros, std in pts:
         out.append(C.Config(macros, cxx="g++", std=std, opt="-O1"))
         out.append(C.Config(macros, cxx="g++", std=std, opt="-O1", san="asan"))
